@@ -11,6 +11,7 @@ import (
 	"sort"
 	"strings"
 	"sync"
+	"sync/atomic"
 	"testing"
 	"testing/synctest"
 
@@ -35,7 +36,7 @@ type Scenario struct {
 	Second  bool          `json:"second"` // attempt a second writer on the locked directory
 	Ids     []string      `json:"ids"`
 	NoClose bool          `json:"no_close"`
-	CloseEarly bool       `json:"close_early"` // Close may be called as soon as callers returned (always true); kept for the record
+	CloseLast bool        `json:"close_last"` // Close is called only when nothing else can run (background work completes)
 }
 
 // Scheduler picks the next gate to release.
@@ -129,6 +130,36 @@ func (d *DevSched) Describe() any {
 	return map[string]any{"kind": "dev", "base": d.Base, "dev": d.Dev, "picks": d.Picks}
 }
 
+// ---- replay of a recorded schedule ----
+
+type ReplaySched struct {
+	Want     []string
+	Diverged int
+	Picks    []string
+}
+
+func (r *ReplaySched) Choose(step int, gates []*ctl.Gate) int {
+	k := 0
+	if step < len(r.Want) {
+		found := false
+		for i, g := range gates {
+			if g.Key == r.Want[step] {
+				k, found = i, true
+				break
+			}
+		}
+		if !found {
+			r.Diverged++
+		}
+	}
+	r.Picks = append(r.Picks, gates[k].Key)
+	return k
+}
+
+func (r *ReplaySched) Describe() any {
+	return map[string]any{"kind": "replay", "diverged": r.Diverged, "picks": r.Picks}
+}
+
 // ---- the run ----
 
 // Image is a copy of the directory at an operation boundary.
@@ -139,7 +170,7 @@ type Image struct {
 	Kind    string `json:"kind"`
 	ID      uint64 `json:"id"`
 	Variant string `json:"variant"`
-	AtSeq   int    `json:"at_seq"`
+	At      int    `json:"at"` // number of the Image event after which the result belongs
 }
 
 type RunResult struct {
@@ -184,8 +215,28 @@ type openReader struct {
 // the number of uids already used in earlier incarnations.
 func Run(t *testing.T, scn Scenario, sched Scheduler, workDir string, uidBase *int, evSink *[]ctl.Event) RunResult {
 	var res RunResult
+	var c *ctl.Ctl
+	defer ctl.ClearSys()
+	defer func() {
+		// synctest panics when the bubble's root goroutine ends while other
+		// goroutines are still durably blocked: that is a hang of the code
+		// under test (Close did not terminate); record it instead of dying.
+		if p := recover(); p != nil {
+			if !strings.Contains(fmt.Sprint(p), "deadlock") {
+				panic(p)
+			}
+			res.Stuck = true
+			if c != nil {
+				res.Events = c.Events()
+				if len(res.Events) == 0 || res.Events[len(res.Events)-1]["ev"] != "Stuck" {
+					res.Events = append(res.Events, ctl.Event{"ev": "Stuck", "proc": "ctl", "why": fmt.Sprint(p)})
+				}
+			}
+			res.Sched = sched.Describe()
+		}
+	}()
 	synctest.Test(t, func(t *testing.T) {
-		c := ctl.New(true)
+		c = ctl.New(true)
 		opts := scn.Opts
 		s := ctl.NewSys(c, opts)
 		var imgMu sync.Mutex
@@ -193,6 +244,7 @@ func Run(t *testing.T, scn Scenario, sched Scheduler, workDir string, uidBase *i
 		imgRoot := workDir + ".img"
 		if scn.Images && opts.Path != "" {
 			var preDir string
+			var preN int
 			s.Dir.OnBoundary = func(tag, kind string, id uint64, content []byte) {
 				imgMu.Lock()
 				defer imgMu.Unlock()
@@ -201,10 +253,8 @@ func Run(t *testing.T, scn Scenario, sched Scheduler, workDir string, uidBase *i
 					preDir = fmt.Sprintf("%s/%d-pre", imgRoot, imgN)
 					_ = copyDir(opts.Path, preDir)
 					c.Log("Image", "img", imgN, "tag", "before", "kind", kind, "id", id)
-					res.Images = append(res.Images, Image{N: imgN, Path: preDir, Tag: "before", Kind: kind, ID: id, Variant: "boundary"})
-					if content == nil && !strings.HasPrefix(kind, "rm") {
-						return
-					}
+					preN = imgN
+					res.Images = append(res.Images, Image{N: imgN, Path: preDir, Tag: "before", Kind: kind, ID: id, Variant: "boundary", At: imgN})
 					return
 				}
 				// after: a boundary image, plus torn variants of the item on top of the pre-state
@@ -212,7 +262,7 @@ func Run(t *testing.T, scn Scenario, sched Scheduler, workDir string, uidBase *i
 				post := fmt.Sprintf("%s/%d-post", imgRoot, imgN)
 				_ = copyDir(opts.Path, post)
 				c.Log("Image", "img", imgN, "tag", "after", "kind", kind, "id", id)
-				res.Images = append(res.Images, Image{N: imgN, Path: post, Tag: "after", Kind: kind, ID: id, Variant: "boundary"})
+				res.Images = append(res.Images, Image{N: imgN, Path: post, Tag: "after", Kind: kind, ID: id, Variant: "boundary", At: imgN})
 				if strings.HasPrefix(kind, "rm") || content == nil {
 					return
 				}
@@ -224,15 +274,16 @@ func Run(t *testing.T, scn Scenario, sched Scheduler, workDir string, uidBase *i
 					_ = copyDir(preDir, d)
 					_ = os.WriteFile(filepath.Join(d, name), content[:L], 0o644)
 					// the torn state belongs to the instant before the persist completed
-					res.Images = append(res.Images, Image{N: imgN, Path: d, Tag: "torn", Kind: kind, ID: id, Variant: fmt.Sprintf("prefix%d", L), AtSeq: -1})
+					res.Images = append(res.Images, Image{N: imgN, Path: d, Tag: "torn", Kind: kind, ID: id, Variant: fmt.Sprintf("prefix%d", L), At: preN})
 				}
 				imgN++
 				d := fmt.Sprintf("%s/%d-zero", imgRoot, imgN)
 				_ = copyDir(preDir, d)
 				_ = os.WriteFile(filepath.Join(d, name), make([]byte, len(content)), 0o644)
-				res.Images = append(res.Images, Image{N: imgN, Path: d, Tag: "torn", Kind: kind, ID: id, Variant: "zero", AtSeq: -1})
+				res.Images = append(res.Images, Image{N: imgN, Path: d, Tag: "torn", Kind: kind, ID: id, Variant: "zero", At: preN})
 			}
 		}
+		defer s.Stop()
 		if err := s.Open(); err != nil {
 			res.Events = c.Events()
 			return
@@ -262,6 +313,7 @@ func Run(t *testing.T, scn Scenario, sched Scheduler, workDir string, uidBase *i
 		}
 		go func() { cwg.Wait(); close(clientsDone) }()
 
+		var closing atomic.Bool
 		readers := map[string]*openReader{}
 		var rmu sync.Mutex
 		rounds := scn.ReaderRounds
@@ -276,6 +328,9 @@ func Run(t *testing.T, scn Scenario, sched Scheduler, workDir string, uidBase *i
 				c.Register(proc)
 				for k := 0; k < rounds; k++ {
 					c.GateAt("reader.open")
+					if closing.Load() {
+						return // no new readers from a closed writer
+					}
 					r, err := s.W.Reader()
 					if err != nil {
 						c.LogP(proc, "ReaderOpen", "r", proc, "err", err.Error())
@@ -294,8 +349,10 @@ func Run(t *testing.T, scn Scenario, sched Scheduler, workDir string, uidBase *i
 					rmu.Unlock()
 					o = ctl.Observe(r, scn.Ids, true)
 					c.LogP(proc, "ReaderObs", "r", proc, "obs", o, "reps", or.reps, "final", true)
+					// the reader is not used any more from here on
+					c.LogP(proc, "ReaderClose", "r", proc)
 					err = r.Close()
-					c.LogP(proc, "ReaderClose", "r", proc, "err", fmt.Sprint(err))
+					c.LogP(proc, "ReaderClosed", "r", proc, "err", fmt.Sprint(err))
 				}
 			}()
 		}
@@ -306,6 +363,9 @@ func Run(t *testing.T, scn Scenario, sched Scheduler, workDir string, uidBase *i
 				c.Register("w2")
 				c.GateAt("second.open")
 				cfg2 := bluge.DefaultConfig(opts.Path)
+				ic2 := cfg2.VerifIndexConfig()
+				ic2.NumAnalysisWorkers = 0 // a refused OpenWriter never stops its workers
+				cfg2 = cfg2.VerifWithIndexConfig(ic2)
 				w2, err := bluge.OpenWriter(cfg2)
 				if err == nil {
 					_ = w2.Close()
@@ -321,6 +381,7 @@ func Run(t *testing.T, scn Scenario, sched Scheduler, workDir string, uidBase *i
 			c.Register("closer")
 			<-clientsDone
 			c.GateAt("close.call")
+			closing.Store(true)
 			_ = s.Close()
 		}()
 
@@ -358,6 +419,15 @@ func Run(t *testing.T, scn Scenario, sched Scheduler, workDir string, uidBase *i
 					c.Log("Stuck")
 				}
 				break
+			}
+			if scn.CloseLast && len(gs) > 1 {
+				var gs2 []*ctl.Gate
+				for _, g := range gs {
+					if g.Name != "close.call" {
+						gs2 = append(gs2, g)
+					}
+				}
+				gs = gs2
 			}
 			i := sched.Choose(step, gs)
 			step++
